@@ -2,7 +2,7 @@
 
 use crate::steps::{AllocCfg, Policy};
 use std::collections::{BTreeSet, VecDeque};
-use usim::prng::{mix2, Rng};
+use usim::prng::Rng;
 
 /// Which 1 GiB zones of physical memory hold page tables (the rest is "data" and is what map
 /// calls may target).  Known to both the allocator and the step generator, so table frames and
@@ -14,8 +14,7 @@ pub struct Zones {
 
 impl Zones {
     pub fn is_table_zone(&self, pa: u64) -> bool {
-        let z = pa >> 30;
-        mix2(self.seed, z) & 3 == 0
+        usim::physmem::is_table_zone(self.seed, pa)
     }
     /// a table zone number below `limit_zones`
     pub fn pick_table_zone(&self, rng: &mut Rng, limit_zones: u64) -> u64 {
